@@ -195,6 +195,22 @@ CLAIMED["C08"] = (
     "DESIGN.md section 6, C08",
 )
 
+CLAIMED["C09"] = (
+    "Independent Gallina definitions over Q of accuracy, balanced accuracy, top-3 accuracy, (mean) average precision, Jaccard "
+    "and true-class probability, and the metric tables of the four tasks. Coq theorems: the terms of every list are pairwise "
+    "distinct; every reported value is the definition its term names (name -> definition map); scores aggregate as means; "
+    "every run metric and the score are invariant under any permutation of the evaluated items. Correspondence: scikit-learn "
+    "is not trusted — every value at run / clip / match level is recomputed by the Gallina definitions from the encoded truths "
+    "and scores; the oracle additionally saves and reloads each evaluation (every metric must survive) and re-runs the task "
+    "with the clips permuted.",
+    "Trusted: Coq kernel/vm_compute; multilabel_example_score (exp(-log loss)) is an opaque per-clip input, only its mean is "
+    "modelled; scikit-learn's conventions adopted and stated: ties in top-3 rank the higher class index first, AP of a class "
+    "without positives is 0; survival of save/load and order independence of the implementation are observed, not proved "
+    "(the AOEF round trip is C01).",
+    "Rocq/Coq proof (independent metric definitions, permutation invariance) + model/implementation correspondence by vm_compute",
+    "DESIGN.md section 6, C09",
+)
+
 NOT_YET = {}
 
 
